@@ -269,6 +269,7 @@ var stringPool = []string{
 var keyPool = []string{
 	"", "a", "b", "c", "d", "k1", "k2", "key", "with \"quote\"", "a.b", "x#1", "é", "日本", "😀", "}", "{", "back\\slash", "nl\n", "k\\", "]",
 	"A", "Key", "key ", " key", "e\u0301", "KEY", "a very long key that is longer than thirty-two bytes, to be sure", "k\x00", "ａ",
+	"a\xff", "a\xfe", "\xc3", "\xed\xa0\x80", // not valid UTF-8: still arbitrary strings
 }
 
 // plainKeyPool holds keys usable as tree-form path segments.
